@@ -242,6 +242,11 @@ structure Defects where
   /-- uniqueness is only probed when a statement runs, against the statement's snapshot; nothing is re-checked at
       commit, so two open transactions inserting the same key both commit -/
   uniqueNotRecheckedAtCommit : Bool := false
+  /-- the check at commit is not a re-check of the constraints on what the committed database would become: the keys a
+      transaction INSERTed travel in its write set (`record_key_write`), and its commit is refused exactly when a
+      transaction that committed since its begin inserted one of them.  Keys that came into being another way (UPDATE
+      of a key column) are not covered, a key whose row was deleted again still counts -/
+  commitChecksInsertedKeysOnly : Bool := false
   deriving Repr
 
 def Defects.none : Defects := {}
@@ -637,12 +642,33 @@ def State.commitTxn (σ : State) (tid : Nat) : State × Bool :=
 def State.abortTxn (σ : State) (tid : Nat) : State :=
   { σ with txns := setStatus σ.txns tid .aborted }
 
+/-- the key entries of `tid`'s write set (`ThreadContext::record_key_write`): table, key columns and (fully non-NULL)
+    key of every row it inserted, under every key set of the table -/
+def insertedKeys (cat : Catalog) (rows : List Row) (tid : Nat) : List (String × List Nat × List Val) :=
+  rows.flatMap (fun r =>
+    match r.versions.getLast?, findTable cat r.table with
+    | some v, some ts =>
+      if v.creator == tid then
+        (ts.keySets.filter (fun K => !(keyOf K v.vals).contains .null)).map (fun K => (r.table, K, keyOf K v.vals))
+      else []
+    | _, _ => [])
+
+/-- `validate_write_set` over the key entries: a transaction that committed since `tid` began inserted one of the keys
+    `tid` inserted -/
+def State.keyTaken (σ : State) (tid : Nat) : Bool :=
+  match σ.txns[tid]? with
+  | Option.none => false
+  | some t =>
+    (σ.clog.drop t.startTs).any (fun e =>
+      (insertedKeys σ.cat σ.rows e.1).any (fun k => (insertedKeys σ.cat σ.rows tid).contains k))
+
 /-- commit as the sessions see it: first-committer-wins validation, then the constraints are re-checked on what the
     committed database would become; `none` = committed -/
 def State.commitC (D : Defects) (σ : State) (tid : Nat) : State × Option Err :=
   if (σ.commitTxn tid).2 then
-    if !D.uniqueNotRecheckedAtCommit &&
-        !constraintsHold σ.cat (view D ((σ.commitTxn tid).1.freshSnap D) (σ.commitTxn tid).1.rows) then
+    if (D.commitChecksInsertedKeysOnly && σ.keyTaken tid) || (!D.commitChecksInsertedKeysOnly &&
+        !D.uniqueNotRecheckedAtCommit &&
+        !constraintsHold σ.cat (view D ((σ.commitTxn tid).1.freshSnap D) (σ.commitTxn tid).1.rows)) then
       (σ.abortTxn tid, some .constraint)
     else ((σ.commitTxn tid).1, Option.none)
   else ((σ.commitTxn tid).1, some .conflict)
